@@ -222,7 +222,8 @@ pub fn run(ctx: &Ctx) {
     let mut pts: Vec<Vec<u8>> = Vec::new();
     for (pi, (_, pw)) in pool.iter().enumerate() {
         let mut rng = Rng::fork(ctx.seed, &format!("C02-wrong-{}", pi));
-        let pt = rng.bytes(if pi % 2 == 0 { 40 } else { 65536 + 9 });
+        // empty and one-byte plaintexts matter: their only chunk is the one that binds the password
+        let pt = rng.bytes([0usize, 40, 1, 65536 + 9, 0, 65536][pi % 6]);
         let salt = rng.arr32();
         let e = pass_encrypt_run(&pt, &Io::plain(), pw, salt);
         if !e.outcome.is_ok() {
